@@ -8,6 +8,8 @@ import os
 import sys
 import time
 
+_real_time = time.time  # bound before mc/vclock.py replaces the functions of the time module
+
 VERIF = os.path.dirname(os.path.dirname(os.path.abspath(__file__)))
 REPO = os.environ.get("VERIF_REPO", "/repo")
 # scratch runs against a mutated copy of the tree (mc/seedtest.py) must not overwrite the committed evidence
@@ -161,7 +163,7 @@ class Run:
         self.pid = pid
         self.tier = tier
         self.seed = seed
-        self.t0 = time.time()
+        self.t0 = _real_time()
         self.total = Part()
         self.level = "model_checking"
         self.rule = ""
@@ -181,7 +183,7 @@ class Run:
             self.total.merge(p)
 
     def log(self, msg: str) -> None:
-        print(f"[{self.pid} {time.time() - self.t0:6.1f}s] {msg}", flush=True)
+        print(f"[{self.pid} {_real_time() - self.t0:6.1f}s] {msg}", flush=True)
 
     def _line_coverage(self) -> dict:
         """Which lines of the files the property is anchored in were executed by this run (evidence, not a verdict)."""
@@ -249,7 +251,7 @@ class Run:
         if unknown:
             print(f"[{self.pid}] {len(unknown)} distinct unlisted violation(s) kept "
                   f"({nviol_total} raised in total, by kind: {dict(sorted(tot.vk.items()))})")
-        wall = time.time() - self.t0
+        wall = _real_time() - self.t0
         cov = {
             "states": states,
             "transitions": transitions,
